@@ -21,7 +21,7 @@ designs versus the independent occurrence enumeration oracles.Occ.
   C11.enum-after-edit  the queries asked again in the state an edit leaves behind (netlist / library / definition / instance / port /
                     cable / pin / wire roots, hierarchical-instance roots built BEFORE the edit; degenerate roots are labelled:
                     instance-without-reference, cable-without-wires, port-without-pins, href-instance-stale) versus the occurrence
-                    enumeration of the current netlist              site: query(rootkind,recursive=..):top-valid|top-invalid|top-none
+                    enumeration of the current netlist              site: query(rootkind):top-valid|top-invalid|top-none
 
 Edits (EDIT_SEQS) are short sequences; the references built before the first step AND references built from the oracle's paths
 after every step are re-examined after every step.  Besides edits below the top (remove child / cable / wire / port / pin,
@@ -719,12 +719,12 @@ def queries_after(f, label, n, ctx, held_roots, r):
             lst.sort(key=lambda x: 0 if prefer(x) else 1)      # stable: degenerate elements first
         return lst[:k]
     roots = [('netlist', n, None)]
-    roots += [('library', l, l) for l in pick(n.libraries, 2)]
-    roots += [('definition', d, d) for d in pick(defs, 3)]
+    roots += [('library', l, l) for l in pick(n.libraries, 1)]
+    roots += [('definition', d, d) for d in pick(defs, 2)]
     roots += [('instance' if i.reference is not None else 'instance-without-reference', i, i)
-              for i in pick([i for d in defs for i in d.children], 3, lambda i: i.reference is None)]
-    roots += [('port' if len(x.pins) else 'port-without-pins', x, x) for x in pick([p for d in defs for p in d.ports], 2, lambda x: len(x.pins) == 0)]
-    roots += [('cable' if len(x.wires) else 'cable-without-wires', x, x) for x in pick([c for d in defs for c in d.cables], 2, lambda x: len(x.wires) == 0)]
+              for i in pick([i for d in defs for i in d.children], 2, lambda i: i.reference is None)]
+    roots += [('port' if len(x.pins) else 'port-without-pins', x, x) for x in pick([p for d in defs for p in d.ports], 1, lambda x: len(x.pins) == 0)]
+    roots += [('cable' if len(x.wires) else 'cable-without-wires', x, x) for x in pick([c for d in defs for c in d.cables], 1, lambda x: len(x.wires) == 0)]
     roots += [('inner-pin', x, x) for x in pick([q for d in defs for p in d.ports for q in p.pins], 1)]
     roots += [('wire', x, x) for x in pick([w for d in defs for c in d.cables for w in c.wires], 1)]
     for h, s in held_roots:
@@ -732,26 +732,29 @@ def queries_after(f, label, n, ctx, held_roots, r):
     for label_kind, obj, key in roots:
         kind = label_kind.split('-with')[0].replace('-stale', '')
         for q, fn in Q.items():
-            for rec in (False, True):
+            # both flags for the "within" roots, one (drawn) for the others: their answers do not depend on it (C11.roots)
+            for rec in ((False, True) if kind in ('netlist', 'href-instance') else (r.random() < 0.5,)):
                 if label_kind == 'href-instance-stale' or (kind == 'href-instance' and not rootok):
                     exp = []
                 else:
                     exp = single_expected(occ, kind, key, q, rec)
                 if exp is None:
                     continue
-                site = 'get_%s(%s,recursive=%s):%s' % (q, label_kind, rec, state)
-                res = f.guarded('C11.raises', site, lambda: list(fn(obj, recursive=rec)), edit=label)
+                site = 'get_%s(%s):%s' % (q, label_kind, state)
+                res = f.guarded('C11.raises', site, lambda: list(fn(obj, recursive=rec)), edit=label, recursive=rec)
                 if res is None:
                     continue
                 got = [oracles.href_seq(h) for h in res]
                 gi = [ids(s) for s in got]
                 ei = {ids(s): s for s in exp}
-                f.check(len(gi) == len(set(gi)), 'C11.dup', site, 'after %s: %d results, %d distinct paths' % (label, len(gi), len(set(gi))), edit=label)
+                f.check(len(gi) == len(set(gi)), 'C11.dup', site, 'after %s, recursive=%s: %d results, %d distinct paths' % (label, rec, len(gi), len(set(gi))),
+                        edit=label, recursive=rec)
                 missing = [show(s) for k, s in ei.items() if k not in set(gi)]
                 extra = [show(s) for k, s in zip(gi, got) if k not in ei]
-                f.check(not missing and not extra, 'C11.enum-after-edit', site, 'after %s: expected %d occurrences, got %d; missing %r extra %r%s' % (
-                    label, len(ei), len(set(gi)), missing[:3], extra[:3],
-                    ' (returned references report is_valid=%s)' % sorted(set(h.is_valid for h, k in zip(res, gi) if k not in ei)) if extra else ''), edit=label)
+                f.check(not missing and not extra, 'C11.enum-after-edit', site, 'after %s, recursive=%s: expected %d occurrences, got %d; missing %r extra %r%s' % (
+                    label, rec, len(ei), len(set(gi)), missing[:3], extra[:3],
+                    ' (returned references report is_valid=%s)' % sorted(set(h.is_valid for h, k in zip(res, gi) if k not in ei)) if extra else ''),
+                        edit=label, recursive=rec)
                 bad_v = [h for h, k in zip(res, gi) if k in ei and h.is_valid is not True]
                 f.check(not bad_v, 'C11.valid', 'after-edit:' + q, 'after %s: %d returned references of existing paths report invalid' % (label, len(bad_v)), edit=label)
 
@@ -813,8 +816,8 @@ def case(ad, f):
             'cable, wire, hierarchical port/pin/cable/wire), pool <= ~45 per design, recursive on and off; %d collections of 2-4 (+1 repeated) roots '
             'of mixed kinds per query and flag, given as list or tuple' % MIXED_PER_QUERY] = 1
     f.stats['note:edits: %d sequences per design (%s); held = every reference enumerated before the first step + <= %d per kind built from the '
-            'oracle paths after every step; after every step the five queries (recursive on/off) from the netlist, <= 2 libraries, <= 3 definitions, '
-            '<= 3 instances, <= 2 ports, <= 2 cables, 1 pin, 1 wire (degenerate ones first) and %d hierarchical-instance roots built before the edit'
+            'oracle paths after every step; after every step the five queries from the netlist and %d hierarchical-instance roots built before the edit '
+            '(recursive on and off) and from 1 library, <= 2 definitions, <= 2 instances, 1 port, 1 cable, 1 pin, 1 wire (degenerate ones first; flag drawn)'
             % (len(EDIT_SEQS), '; '.join('+'.join(s) for s in EDIT_SEQS), FRESH_PER_KIND, HELD_ROOTS)] = 1
 
 
